@@ -3,7 +3,7 @@ import json
 import re
 
 from .lib import (PLUMBING, callee_allow, callers, closure_args_of_call, lit_strs, operand_local)
-from .lib_c09 import stream_emissions
+from .lib_c09 import handoffs, precise_operands, stream_emissions
 from .lib_c10 import (closure_site, impl_fns, ok_sources, upvar_fields, upvar_origin, upvar_params, value_sources)
 
 LEVEL = "other"
@@ -181,19 +181,31 @@ def r1_decoder_inputs(ctx):
               must_call=r"_serde::Deserialize::deserialize$", origin=_from_params([1]))
     ctor = ctx.need_fn(ds, R, r"^from_map::MapDeserializer::<'de, Z>::from_map$")
     _chain(ctx, R, "path:deserializer-holds-the-map", ctor, {"l": 0, "p": []}, ASYNC, ctor, origin=_from_params([1]))
-    # ---- query
-    lq = ctx.need_fn(ds, R, r"^extractor::query::http_request_load_query$")
+    # ---- query (normalised view: `.unwrap_or("")`, `.map_or(&b""[..], str::as_bytes)`, `match q {Some(s) => s, None => ""}` read alike)
+    dn = ctx.dsn
+    lq = ctx.need_fn(dn, R, r"^extractor::query::http_request_load_query$")
+    QDEC = r"serde_urlencoded::(from_str|from_bytes)$"
     dq = lq.live_calls(r"serde_urlencoded::(from_str|from_bytes|Deserializer)")
     ctx.check(R, "query:single-decode-site", len(dq) == 1, "serde_urlencoded decode sites in http_request_load_query: %d" % len(dq), lq)
-    qallow = ASYNC + [r"handler::RequestInfo::uri$", r"http::Uri::query$", r"Option::<T>::unwrap_or$", r"Option::<T>::unwrap_or_default$"]
+    # the raw query string, or its bytes (`str::as_bytes`: the same text), or the whole of a constant (`c[..]`: an Index by RangeFull selects everything)
+    qallow = ASYNC + [r"handler::RequestInfo::uri$", r"http::Uri::query$", r"Option::<T>::unwrap_or$", r"Option::<T>::unwrap_or_default$", r"str::<impl str>::as_bytes$"]
+    if all((t.get("gargs") or ["", ""])[-1] == "std::ops::RangeFull" for bb, t in lq.live_calls(r"ops::Index::index$")):
+        qallow = qallow + [r"ops::Index::index$"]
+
+    def empty_text(v):
+        try:
+            d = json.loads(v)
+        except (TypeError, ValueError):
+            return False
+        return isinstance(d, dict) and d.get("str") == ""
     for bb, t in dq:
         sl = _chain(ctx, R, "query:decoder-input-is-the-raw-query-string", lq, t["args"][0], qallow, (lq, bb), must_call=r"http::Uri::query$",
                     origin=_from_params([1]), consts_ok=True)
         ls = lit_strs(sl)
-        # (the empty default may be a literal or a named constant whose evaluated value is "")
-        others = [a for a in _consts(sl) if not (a[0] == "lit" and a[1] == '{"str": ""}') and not (a[0] == "const" and len(a) > 2 and a[2] == '{"str": ""}')]
+        # (the empty default may be a literal — text or byte string — or a named constant whose evaluated value is "")
+        others = [a for a in _consts(sl) if not (a[0] == "lit" and empty_text(a[1])) and not (a[0] == "const" and len(a) > 2 and empty_text(a[2]))]
         ctx.check(R, "query:absent-query-is-empty-string", ls <= {""} and not others, "string constants on the chain: %s (only the empty default is allowed)" % sorted(ls), (lq, bb))
-    _wraps(ctx, R, "query:extractor-wraps-decoder-output", ds, lq, r"^extractor::query::Query$", qallow + [r"serde_urlencoded::from_str$"], r"serde_urlencoded::from_str$", consts_ok=True)
+    _wraps(ctx, R, "query:extractor-wraps-decoder-output", dn, lq, r"^extractor::query::Query$", qallow + [QDEC], QDEC, consts_ok=True)
     qimpl = [f for i, f in impl_fns(ds, r"^extractor::common::SharedExtractor$", "from_request") if "query::Query" in i["self"]]
     if len(qimpl) != 1:
         ctx.lost(R, "SharedExtractor::from_request impl for Query")
@@ -282,7 +294,9 @@ def r1_decoder_inputs(ctx):
         g = em["body"]
         ctx.check(R, "stream:single-data-yield", len(em["items"]) == 1, "sites that emit an Ok(chunk) item [%s idiom]: %d" % (em["form"], len(em["items"])), g)
         for bb, item in em["items"]:
-            _chain(ctx, R, "stream:yielded-chunk-is-the-frame-payload", g, item,
+            # (variant-precise sources of the item: a chunk that comes out of a spliced async helper as `Ok(Some(data))` is `data`,
+            # whatever the helper's other returns build)
+            _chain(ctx, R, "stream:yielded-chunk-is-the-frame-payload", g, precise_operands(g, item),
                    ASYNC + [r"hyper::body::Frame::<T>::into_data$", r"http_body_util::BodyExt::frame$", r"Result::<T, E>::map_err$"], (g, bb),
                    must_call=r"Frame::<T>::into_data$", origin=em["state_origin"])
     # ---- accumulation
@@ -417,14 +431,32 @@ def r2_primitive_table(ctx):
                 # visit input: the parse result (Ok payload), nothing else
                 # (the Ok side only: `match parse() {Ok(v) => visit(v), Err(_) => Err(msg)}` and `let v = parse().map_err(|_| msg)?; visit(v)` are the same program)
                 vss = [vg.slice(o) for o in value_sources(vg, vt["args"][1])]
-                v_ok = vg is g and bool(vss)
-                for vs in vss:
+                legs = [(vg, vss)]      # (function, slices) the value travels through from the parse call to the visit call
+                how = ""
+                if vg is g:
+                    pss, v_ok = vss, bool(vss)
+                else:
+                    # the visit call is written in a closure that the parsing code receives as a callable (`parse_scalar::<T>(|v| visitor.visit_T(v))`
+                    # with the parse in a generic helper): the closure passes its own argument on untouched, and the parsing code hands it the
+                    # Ok payload of the parse (`.and_then(visit)` / `.map(visit)` / `visit(v)`) exactly once
+                    v_ok = bool(vss) and all(vs.params() == [2] and not vs.callees and not _consts(vs) and not [a for a in vs.atoms if a[0] in ("binop", "unop")] for vs in vss)
+                    hs = handoffs(fns, g, vg)
+                    v_ok = v_ok and len(hs) == 1 and bool(hs[0][2])
+                    pss = [g.slice(o) for o in (hs[0][2] or [])] if len(hs) == 1 else []
+                    legs.append((g, pss))
+                    how = " (visit in a callable handed to the parsing code by %s)" % [t_["callee"].split("::")[-1] for _, t_, _ in hs]
+                    if v_ok and re.fullmatch(r"\w+/#\d+", pty):
+                        # the parse type is a type parameter of the (inlined) generic helper: the parsed value reaches the callable's argument
+                        # unconverted, so the parameter is instantiated as that argument's type
+                        how += "; parse::<%s> instantiated as the callable's argument type" % pty
+                        pty = vg.local_ty(2)
+                for vs in pss:
                     v_ok = v_ok and any(b == pbb for _, b, _ in vs.calls(r"parse$|from_str$")) and not callee_allow(vs, raw_allow + [r"str::<impl str>::parse$", r"str::FromStr::from_str$"]) \
                         and not [a for a in vs.atoms if a[0] in ("binop", "unop")] and not _consts(vs)
-                cast = [1 for b_, i_, s_ in vg.stmts() if s_["rv"]["rv"] == "cast" and s_["rv"].get("kind", "").startswith(("IntToInt", "FloatToInt", "IntToFloat", "FloatToFloat"))
-                        and any(vs.touches_local(s_["pl"]["l"]) for vs in vss)]
+                cast = [1 for fn_, sls in legs for b_, i_, s_ in fn_.stmts() if s_["rv"]["rv"] == "cast" and s_["rv"].get("kind", "").startswith(("IntToInt", "FloatToInt", "IntToFloat", "FloatToFloat"))
+                        and any(vs.touches_local(s_["pl"]["l"]) for vs in sls)]
                 ok = pty == T and vname == "visit_" + T and in_ok and v_ok and not cast
-                d = "parse::<%s> -> %s; parse input is as_value(raw)=%s; visit input is the parsed value=%s; numeric casts on the way=%d" % (pty, vname, in_ok, v_ok, len(cast))
+                d = "parse::<%s> -> %s; parse input is as_value(raw)=%s; visit input is the parsed value=%s%s; numeric casts on the way=%d" % (pty, vname, in_ok, v_ok, how, len(cast))
             ctx.check(R, "primitive:%s" % T, ok, d, top)
         elif T in STRKINDS:
             ok = len(visits) == 1
@@ -715,7 +747,8 @@ def r4_no_shared_channel(ctx):
 def r5_multipart_boundary(ctx):
     R = ctx.rule("C09.R5", "the boundary given to multer::Multipart comes from multer::parse_boundary (or mime::Mime::get_param) applied to this request's Content-Type header, "
                  "with no substring operation; the multipart stream is this request's body", floor=5)
-    ds = ctx.ds
+    # (normalised view: `.ok_or_else(..)?.to_str().map_err(..)?`, `.ok_or_else(..).and_then(|hv| hv.to_str().map_err(..))?`, let-else and match spellings of the header read are one program)
+    ds = ctx.dsn
     sites = callers(ds, r"multer::Multipart::<'r>::(new|with_constraints)$|multer::Multipart::(new|with_constraints)$")
     ctx.check(R, "multipart-sites", len(sites) >= 1, "multer::Multipart constructor sites: %d" % len(sites), None, nontrivial=False)
     hdr = ASYNC + [r"http::HeaderMap::<T>::get$", r"http::HeaderValue::to_str$", r"Option::<T>::ok_or_else$", r"Option::<T>::ok_or$", r"Result::<T, E>::map_err$",
@@ -1018,6 +1051,31 @@ SELFTEST = [
      "edits": [("dropshot/src/extractor/body.rs", "return Ok(Some((buf, (this, bytes_read + len))));",
                 "return Ok(Some((buf.slice(0..len.min(4096)), (this, bytes_read + len))));")],
      "expect": ["C09.R1"], "why": "(try_unfold idiom: the stream of benign-C11-R5) streamed chunks longer than 4 KiB lose their tail"},
+    # the primitive table written through a generic helper (benign/C10-R9: `self.parse_scalar::<$i, _, _>(|v| visitor.visit_$i(v))`, the parse in the helper's shared closure)
+    {"name": "generic-helper-u16-parsed-as-u8", "kind": "mutant", "patch": "benign/C10-R9/patch.diff",
+     "edits": [("dropshot/src/from_map.rs", "    de_value!(u16);",
+                "    fn deserialize_u16<V>(self, visitor: V) -> Result<V::Value, MapError>\n    where\n        V: Visitor<'de>,\n    {\n"
+                "        self.parse_scalar::<u8, _, _>(|value| visitor.visit_u16(value as u16))\n    }")],
+     "expect": ["C09.R2"], "why": "(generic-helper idiom) the helper is instantiated at u8 for a u16 parameter and the callable widens the value"},
+    {"name": "generic-helper-parses-trimmed-text", "kind": "mutant", "patch": "benign/C10-R9/patch.diff",
+     "edits": [("dropshot/src/from_map.rs", "raw.parse::<T>().map_err", "raw.trim().parse::<T>().map_err")],
+     "expect": ["C09.R2"], "why": "(generic-helper idiom) every scalar is parsed from the trimmed text: ' 12' is accepted for an integer parameter"},
+    # the query string decoded from its bytes with an empty byte-string default (benign/C09-R12)
+    {"name": "query-decoded-from-bytes", "kind": "benign",
+     "edits": [("dropshot/src/extractor/query.rs", "    let raw_query_string = request.uri().query().unwrap_or(\"\");",
+                "    let raw_query_bytes: &[u8] = request.uri().query().map_or(&b\"\"[..], str::as_bytes);"),
+               ("dropshot/src/extractor/query.rs", "serde_urlencoded::from_str(raw_query_string)", "serde_urlencoded::from_bytes(raw_query_bytes)")],
+     "why": "behaviour-preserving: unwrap_or(\"\") + from_str spelled map_or(&b\"\"[..], str::as_bytes) + from_bytes"},
+    {"name": "query-bytes-default-is-not-empty", "kind": "mutant", "patch": "benign/C09-R12/patch.diff",
+     "edits": [("dropshot/src/extractor/query.rs", "raw_query.map_or(&b\"\"[..], str::as_bytes)", "raw_query.map_or(&b\"limit=10\"[..], str::as_bytes)")],
+     "expect": ["C09.R1"], "why": "(bytes idiom) a request without a query string is decoded as `limit=10`"},
+    {"name": "query-bytes-cut", "kind": "mutant", "patch": "benign/C09-R12/patch.diff",
+     "edits": [("dropshot/src/extractor/query.rs", "serde_urlencoded::from_bytes(raw_query_bytes)", "serde_urlencoded::from_bytes(&raw_query_bytes[..raw_query_bytes.len().min(1024)])")],
+     "expect": ["C09.R1"], "why": "(bytes idiom) an Index that is not the full range cuts long query strings before decoding"},
+    # the body stream split over async helpers (benign/C11-R9: the chunk comes out of a spliced `next_data_chunk(..).await?`)
+    {"name": "spliced-helper-chunk-truncated", "kind": "mutant", "patch": "benign/C11-R9/patch.diff",
+     "edits": [("dropshot/src/extractor/body.rs", "            return Ok(Some(data));", "            return Ok(Some(data.slice(..data.len().min(4096))));")],
+     "expect": ["C09.R1"], "why": "(async-helper idiom) the helper that reads the next data frame hands back only its first 4 KiB"},
     {"name": "multipart-log-line-and-rename", "kind": "benign",
      "edits": [("dropshot/src/extractor/body.rs", "        let stream = StreamingBody::new(body, rqctx.request_body_max_bytes())\n            .into_stream();\n        Ok(MultipartBody { content: multer::Multipart::new(stream, boundary) })",
                 "        slog::debug!(rqctx.log, \"multipart body\"; \"boundary\" => &boundary);\n        let limited = StreamingBody::new(body, rqctx.request_body_max_bytes());\n        let parts_stream = limited.into_stream();\n        Ok(MultipartBody { content: multer::Multipart::new(parts_stream, boundary) })")],
